@@ -16,7 +16,9 @@ TRUSTED = [
     "Spec/PySlice.lean (slice.indices + range), validated against CPython str slicing each run",
 ]
 ASSUMPTIONS = [
-    "Sequence wrapper (complement on realise, to_rna/to_dna, ~read-only methods) is exercised by the spec-level differential, not modelled in Lean",
+    "Sequence wrapper: __str__/__len__/__getitem__/rc are modelled in lean/CogentModel/Model/SeqWrap.lean (tied by the seqchain correspondence stream "
+    "against old- and new-style DNA/RNA/protein sequences with the moltypes' own complement tables); to_rna/to_dna and the ~read-only methods "
+    "are exercised by the spec-level differential only",
     "cogent3 moltype complement tables are those checked by C12",
 ]
 
@@ -277,10 +279,116 @@ def correspondence(ctx):
         if want != mod:
             add_failure(out, "corr", "Spec.PySlice differs from CPython", dict(n=n, a=a, b=b, c=c), want, mod, confirmed=False)
     bump(out, "pyslice_vs_cpython", len(sp))
+    # the Sequence wrapper model (string level) against real old-/new-style sequences
+    _seq_chain_corr(ctx, out)
     diff = _ast_same()
     if diff:
         ctx.notes.append(f"old/new SliceRecordABC functions whose AST differs: {diff}")
     return out
+
+
+# --------------------------------------------------------------------------
+# correspondence stream 2: Lean wrapper model (Model/SeqWrap.lean) vs real Sequence objects
+# --------------------------------------------------------------------------
+_SEQ_LETTERS = {"dna": "ACGT", "rna": "ACGU", "protein": "ACDEFGHIKLMNPQRSTVWY"}
+_DEGEN = "NRYSWKMBDHV-?"
+
+
+def _real_comp_table(kind, moltype):
+    """the moltype's own complement table, read off `moltype.complement` one character at a time"""
+    if moltype == "protein":
+        return {}
+    if kind == "old":
+        import cogent3
+
+        mt = cogent3.get_moltype(moltype)
+    else:
+        from cogent3.core import new_moltype
+
+        mt = new_moltype.get_moltype(moltype)
+    tbl = {}
+    for ch in _SEQ_LETTERS[moltype] + _DEGEN:
+        try:
+            r = mt.complement(ch)
+        except Exception:
+            continue
+        if isinstance(r, bytes):
+            r = r.decode()
+        r = str(r)
+        if len(r) == 1 and r != ch:
+            tbl[ch] = r
+    return tbl
+
+
+def _seq_state(seq):
+    v = seq._seq
+    return dict(str=str(seq), len=len(seq), start=v.start, stop=v.stop, step=v.step, seq_len=v.seq_len, parent=v.seq)
+
+
+def _seq_chain_corr(ctx, out):
+    rng = ctx.subrng("seqchain")
+    tables = {(k, m): _real_comp_table(k, m) for k in ("old", "new") for m in ("dna", "rna", "protein")}
+    for (k, m), t in tables.items():
+        if m != "protein" and (len(t) < 4 or any(t.get(t[a]) != a for a in t)):
+            add_failure(out, "corr", "real complement table is not an involution", dict(impl=k, moltype=m), "involution", t, confirmed=False)
+    cases = []
+    # exhaustive depth-1 on a short parent, then [op, rc] / [rc, op]
+    small = [None, -7, -3, -1, 0, 1, 3, 7]
+    for a, b, c in itertools.product(small, small, [None, 1, 2, -1, -2]):
+        cases.append(("dna", "ACGTRA", [["s", a, b, c]]))
+        if rng.random() < 0.25:
+            cases.append(("dna", "ACGTRA", [["rc"], ["s", a, b, c], ["rc"]]))
+    for i in range(-8, 9):
+        cases.append(("rna", "ACGUYA", [["i", i]]))
+        cases.append(("rna", "ACGUYA", [["rc"], ["i", i]]))
+        cases.append(("protein", "ACDEFG", [["s", None, None, -1], ["i", i]]))
+    for _ in range(ctx.budget(3000, 40000)):
+        mt = rng.choice(["dna", "dna", "rna", "protein"])
+        n = rng.choice([0, 1, 2, 3, 7, 12, 30]) if rng.random() < 0.6 else rng.randint(0, 40)
+        letters = _SEQ_LETTERS[mt] + (_DEGEN if mt != "protein" and rng.random() < 0.3 else "")
+        text = "".join(rng.choice(letters) for _ in range(n))
+        ops = []
+        for _ in range(rng.randint(1, 7)):
+            if mt != "protein" and rng.random() < 0.2:
+                ops.append(["rc"])
+            else:
+                ops.append(_rand_op(rng, n))
+        cases.append((mt, text, ops))
+    for kind in ("old", "new"):
+        model = ctx.driver.batch(
+            [("seqchain", dict(parent=text, nucleic=(mt != "protein"), comp=tables[(kind, mt)], ops=ops)) for mt, text, ops in cases]
+        )
+        for (mt, text, ops), mod in zip(cases, model):
+            out["evaluations"] += 1
+            inp = dict(impl=kind, moltype=mt, parent=text, ops=ops, stream="seqchain")
+            try:
+                seq = _mk_seq(kind, mt, text, 0)
+            except Exception as e:
+                add_failure(out, "corr", "make_seq raised (seqchain)", inp, "sequence", repr(e), confirmed=False)
+                continue
+            real = [_seq_state(seq)]
+            for op in ops:
+                try:
+                    seq = _apply_real(seq, op)
+                except (ValueError, IndexError, AssertionError) as e:
+                    real.append({"err": _errname(e)})
+                    break
+                real.append(_seq_state(seq))
+            if real != mod:
+                k = next((i for i, (a, b) in enumerate(zip(real, mod)) if a != b), min(len(real), len(mod)))
+                add_failure(
+                    out, "corr", f"Sequence wrapper state differs from Model/SeqWrap ({kind})",
+                    dict(inp, first_difference_after_ops=k), mod[k] if k < len(mod) else None, real[k] if k < len(real) else None,
+                    confirmed=False,
+                )
+                continue
+            last = real[-1]
+            bump(out, "seqchain_final", "raises:" + last["err"] if "err" in last else ("nonempty" if last["len"] else "empty"))
+            bump(out, "seqchain_moltype", mt)
+            if "err" in last or last["len"] > 0:
+                out["nontrivial"].add(("seqchain", kind, mt, text, str(ops)))
+            if sum(1 for x in out["samples"] if x.get("stream") == "seqchain") < 3 and len(ops) > 2 and "err" not in last and last["len"] > 1:
+                out["samples"].append(dict(inp, final=last))
 
 
 # --------------------------------------------------------------------------
